@@ -5,7 +5,7 @@ import verif as V
 PROP = "C12"
 PROPS = "props/C12.v"
 PROPS_B = "props/C12b.v"   # integration with C15: layout pass / raw modes / terminators agree (coq/integ/RenderAgree.v)
-STREAMS = ["strings", "floats", "containers", "run"]
+STREAMS = ["longstrings", "strings", "floats", "containers", "run"]
 
 
 def _stack():
@@ -44,8 +44,8 @@ def _balance(path):
 
 def sizes(tier):
     if tier == "quick":
-        return dict(strings=1500, floats=1500, containers=40, run=40, yaml=150, retain=300, concurrent=0)
-    return dict(strings=60000, floats=120000, containers=600, run=1200, yaml=6000, retain=20000, concurrent=3000)
+        return dict(strings=1500, floats=1500, containers=40, run=40, yaml=150, retain=300, concurrent=0, longstrings=6)
+    return dict(strings=60000, floats=120000, containers=600, run=1200, yaml=6000, retain=20000, concurrent=3000, longstrings=300)
 
 
 def run(tier, seed):
@@ -90,6 +90,7 @@ def run(tier, seed):
         mark("model-build")
     if exe_h and exe_m:
         n = sizes(tier)
+        long_cases = None
         for s in STREAMS + ["yaml", "retain", "concurrent"]:
             rc, out, cases, st = V.run_harness("c12", s, seed, n[s], tier, name="c12-" + s)
             stats[s] = st
@@ -99,10 +100,18 @@ def run(tier, seed):
                 continue
             for v in (st.get("impl_violations") or []):
                 case, _, det = v.partition(" :: ")
-                c.failing_input("implementation-only oracle (%s)" % s, case, det or v)
+                c.failing_input("implementation-only oracle (%s)" % s, short(case), det or v)
             if s in ("yaml", "retain", "concurrent"):
                 c.evaluations += st.get("lines", 0)
                 continue
+            if s == "longstrings":
+                # few, very long lines: judged together with the strings stream (run_model shards only big files)
+                long_cases = cases
+                continue
+            if s == "strings" and long_cases:
+                with open(cases, "a") as f, open(long_cases) as g:
+                    for l in g:
+                        f.write(l)
             _balance(cases)
             try:
                 m = V.compare_model(c, exe_m, cases, "c12-" + s)
@@ -146,6 +155,8 @@ def run(tier, seed):
             "powers of ten, random bits). containers: fixed and random values x {compact, indent 0..9, tab} x {plain, "
             "colour tables incl. nil entries}; indent counts n around 16/32/64/.../1024; deep nesting; values larger than the "
             "8 KiB flush threshold. run: the whole command with -c/--tab/--indent n/-C/-M/-r/-j/--raw-output0/GOJQ_COLORS. "
+            "longstrings: strings of 2^9..2^17 (+-0..4) bytes with 2/3/4-byte characters, U+2028, escapes and invalid bytes straddling "
+            "every offset 4096*k (incl. 8192, 65536), the start and the end, as values and keys, library + command encoders. "
             "yaml: --yaml-output then --yaml-input on sample values (implementation only). retained results: the slices returned by "
             "Marshal (not copies) and the strings returned by tojson/@json/@text/tostring are kept for a window of 64 calls in every "
             "stream and must equal the copy taken at return time after every later call (stream retain: result sizes 1 B..100 KB, "
